@@ -19,7 +19,7 @@ class Ty:
         return self.name
 
     def __eq__(self, o):
-        return isinstance(o, Ty) and self.name == o.name
+        return isinstance(o, Ty) and self.name == o.name and getattr(self, "default_list", False) == getattr(o, "default_list", False)
 
     def __hash__(self):
         return hash(self.name)
@@ -155,10 +155,11 @@ class TTuple(Ty):
 class TDict(Ty):
     """Python dict as a value: (dom, val[, keys]).  `ordered` adds the insertion-order key list."""
 
-    def __init__(self, k: Ty, v: Ty, ordered: bool = False):
+    def __init__(self, k: Ty, v: Ty, ordered: bool = False, default_list: bool = False):
         self.k = k
         self.v = v
         self.ordered = ordered
+        self.default_list = default_list  # collections.defaultdict(list): same encoding, missing keys read as []
         self.name = f"dict[{k.name},{v.name}]" + ("+ord" if ordered else "")
 
     def sort(self):
